@@ -65,7 +65,9 @@ Definition forgiving_m (s : list Z) (i : Z) : bool :=
 
 (** [__find_next_char_boundary]: [loop { position += 1; if forgiving(position) { break position } }].
     Every iteration moves right and any position >= len is accepted, so [S (length bytes)]
-    iterations suffice ([find_next_fuel_ok]). *)
+    iterations suffice when started inside the string (Proofs/CharsProofs.v
+    [find_next_chunk]; every caller in chars_methods.rs starts at 0, so the [usize]
+    overflow of [position += 1] at usize::MAX is unreachable and not modelled). *)
 Fixpoint find_next_go (fuel : nat) (s : list Z) (pos : Z) : res Z :=
   match fuel with
   | O => OutOfFuel
